@@ -176,8 +176,12 @@ func modelCheck() {
 		}
 		c.AddStates(r.Distinct, r.Generated)
 		steps := []string{}
-		for _, m := range regexp.MustCompile(`State \d+: <(\w+)\((\d+)`).FindAllStringSubmatch(r.Output, -1) {
-			steps = append(steps, m[1]+"("+m[2]+")")
+		for _, m := range regexp.MustCompile(`State \d+: <(?:(\w+)\((\d+)|(MCNext) line)`).FindAllStringSubmatch(r.Output, -1) {
+			if m[3] != "" {
+				steps = append(steps, "Start") // (TLC attributes Start to the enclosing MCNext disjunct)
+			} else {
+				steps = append(steps, m[1]+"("+m[2]+")")
+			}
 		}
 		mc[cfg] = map[string]any{"distinct": r.Distinct, "generated": r.Generated, "result": "Invariant " + inv + " is violated", "behaviour": strings.Join(steps, " ")}
 		fmt.Fprintf(os.Stderr, "[tlc] %s: %s VIOLATED by the model of the current code: %s\n", cfg, inv, strings.Join(steps, " "))
@@ -308,7 +312,7 @@ func replaySchedules() []*c03lib.Session {
 	masks := []int{63, 0b111100, 0b000011, 0b101010}
 	div := 0
 	for i, sj := range scheds {
-		s := &c03lib.Session{Cfg: c03lib.Config{ID: fmt.Sprintf("sched%d", i), CK: sj.CK, CN: sj.CN, Sugg: sj.Sugg, Rules0: []string{"FOCT"},
+		s := &c03lib.Session{Cfg: c03lib.Config{ID: fmt.Sprintf("sched%d", i), CK: sj.CK, CN: sj.CN, Sugg: sj.Sugg, Rules0: []string{"FOCT"}, Tr: "direct",
 			Exts: []c03lib.HookSet{c03lib.HookSetOf(masks[rng.Intn(len(masks))])}}}
 		var step []*c03lib.Request
 		for _, rq := range sj.Reqs {
